@@ -57,8 +57,13 @@ def strat_case(draw, tier):
     trunc = draw(st.sampled_from([None, "window"]))
     if trunc is not None:
         trunc = [[-float(f"{draw(_f(0.3, 4.0)) * s:.6g}"), float(f"{draw(_f(0.3, 4.0)) * s:.6g}")] for s in sc]
+    # end points written as integers (python ints): a number is a number
+    int_rect = []
+    for k in range(d):
+        lo = draw(st.integers(1, 3)) * draw(st.sampled_from([-1, 1]))
+        int_rect.append([lo, lo + draw(st.integers(1, 2))] if lo > 0 else [lo - draw(st.integers(1, 2)), lo])
     return {"d": d, "margins": margins, "copula": cop, "a": a, "b": b, "kinds": kinds, "axis": axis, "frac": frac,
-            "truncate": trunc,
+            "truncate": trunc, "int_rect": int_rect,
             "near_zero": near_zero, "idx": idx, "u": [draw(_f(0.05, 4.0)) * s * draw(st.sampled_from([-1, 1])) for s in sc]}
 
 
@@ -90,6 +95,13 @@ def body(case):
     if not math.isfinite(m) or m < -tol(m):
         out.append(Violation(f"{tag}/negative-or-non-finite-mass", f"mass({a},{b}) = {m!r}; {detail}"))
         return out
+    if case.get("int_rect"):
+        ia, ib = [int(v[0]) for v in case["int_rect"]], [int(v[1]) for v in case["int_rect"]]
+        m_int = float(model.mass(list(ia), list(ib)))
+        m_flt = float(model.mass([float(v) for v in ia], [float(v) for v in ib]))
+        if not (m_int == m_flt or abs(m_int - m_flt) <= 1e-12 * abs(m_flt)):
+            out.append(Violation(f"{tag}/integer-typed-end-points-change-the-mass",
+                                 f"mass({ia},{ib}) = {m_int!r} with ints, {m_flt!r} with floats; {detail}"))
     # fast path vs general formula
     g = float(model._mass_nd(list(a), list(b)))
     if abs(g - m) > tol(m):
